@@ -149,7 +149,7 @@ theorem pChmod_meta (w : World) (p : Path) (mode : Nat) : MetaOnly p w (pChmod w
       simp [find_insert, h2]
     · simp [find_insert, hf]
 
-theorem pUtimens_meta (w : World) (p : Path) (t : Nat) : MetaOnly p w (pUtimens w p t).1 := by
+theorem pUtimens_meta (w : World) (p : Path) (t : Int) : MetaOnly p w (pUtimens w p t).1 := by
   unfold pUtimens
   cases hf : find w p with
   | none => exact MetaOnly.refl p w
@@ -300,7 +300,7 @@ theorem MetaOnly.lexDir {p : Path} {w w' : World} (h : MetaOnly p w w') {d : Pat
   h.kept.lexDir hd
 
 theorem updateMeta_spec {w : World} {par : Path} (hl : LexDir w par) (nm : String) (hs : simple nm = true)
-    (hnl : isLink (find w (par ++ [nm])) = false) (mode mtime : Nat) :
+    (hnl : isLink (find w (par ++ [nm])) = false) (mode : Nat) (mtime : Int) :
     MetaOnly (par ++ [nm]) w (updateMeta w (par ++ [nm]) mode mtime).1 := by
   unfold updateMeta
   rw [utimens_entry hl nm hs]
@@ -755,6 +755,8 @@ theorem stepEntry_inv (tmp : String) (hst : simple tmp = true) {T : Path} (hT : 
   unfold stepEntry
   split
   · exact ⟨I, fun h => by simp at h⟩
+  split
+  · exact ⟨I, fun h => by simp at h⟩
   · rename_i hv
     split
     · exact ⟨I, fun h => by simp at h⟩
@@ -785,6 +787,7 @@ theorem stepEntry_inv (tmp : String) (hst : simple tmp = true) {T : Path} (hT : 
             · exact hrel c h1
           cases ht : e.typ with
           | other => exact ⟨I, fun h => by simp at h⟩
+          | bad => exact ⟨I, fun h => by simp at h⟩
           | reg =>
             simp only
             rw [hpar]
